@@ -6,6 +6,7 @@ import Ptn.C01.Cut
 import Ptn.C01.Fill
 import Ptn.C01.Value
 import Ptn.C01.Net
+import Ptn.C01.NetTree
 /-! Property theorems for C01 (Hamiltonian → state diagram → operator is exact).  Only property theorems
 and non-vacuity examples live here; helper lemmas are in `Lemmas.lean`.
 
@@ -375,6 +376,47 @@ theorem base_ttno_network_value {R : Type} [CommSemiring R] (I : Interp R) (dimO
   rw [← hval]
   exact netValue_eq_treeVal I dim T hnd (fill_proper dimOf dim d true T hT hdim) σ
 
+/-- `base_ttno_network_value` with the identifier hypothesis stated on the REFERENCE TREE: for every tree with
+    pairwise different identifiers and every non-empty Hamiltonian the filled uncompressed TTNO has exactly the
+    tree's identifiers (preorder), and for every leg-dimension function that gives each `dn` leg its bond's
+    dimension the flat network evaluates to the value of the Hamiltonian. -/
+theorem base_ttno_network_value_of_tree {R : Type} [CommSemiring R] (I : Interp R) (dimOf : String → Nat)
+    (t : RTree) (tm : Term) (rest : List Term) (hids : t.ids.Nodup) :
+    ∃ d T, baseDiagram t (tm :: rest) = some d ∧ fillTTNO dimOf d = some T ∧ treeIds T = t.ids ∧
+      ∀ (dim : Leg → Nat) (σ : Ptn.Ein.Asg Leg),
+        (∀ p ∈ T.bondsBelow, dim (.dn p.1) = p.2) →
+        Ptn.Ein.netValue dim (treeBinds T) (treeLeaves I T) σ =
+          hamVal I (fun j => σ (.out j)) (fun j => σ (.inn j)) t (tm :: rest) := by
+  obtain ⟨d, T, hd, hT, hval⟩ := base_ttno_network_value I dimOf t tm rest
+  obtain ⟨d', T', hd', hT', _, _, sk, _, _⟩ := base_ttno_exact dimOf t tm rest
+  have ed : d' = d := Option.some.inj (hd'.symm.trans hd)
+  subst ed
+  have eT : T' = T := Option.some.inj (hT'.symm.trans hT)
+  subst eT
+  have hid : treeIds T' = t.ids := treeIds_of_skel T' t sk
+  exact ⟨d', T', hd, hT, hid, fun dim σ hdim => hval dim σ (hid ▸ hids) hdim⟩
+
+/-- **Closed form**: for every tree with pairwise different identifiers and every non-empty Hamiltonian, the flat
+    network of the filled uncompressed TTNO, with the leg dimensions read off the TTNO itself (`ttnoDim T`),
+    evaluates at every assignment of the open legs to
+    `Σ_k c_k γ_k Π_sites A_{k,site}[out_site, in_site]`. No hypothesis besides distinct identifiers. -/
+theorem base_ttno_network_value_closed {R : Type} [CommSemiring R] (I : Interp R) (dimOf : String → Nat)
+    (t : RTree) (tm : Term) (rest : List Term) (hids : t.ids.Nodup) :
+    ∃ d T, baseDiagram t (tm :: rest) = some d ∧ fillTTNO dimOf d = some T ∧
+      ∀ σ : Ptn.Ein.Asg Leg,
+        Ptn.Ein.netValue (ttnoDim T) (treeBinds T) (treeLeaves I T) σ =
+          hamVal I (fun j => σ (.out j)) (fun j => σ (.inn j)) t (tm :: rest) := by
+  obtain ⟨d, T, hd, hT, hid, hval⟩ := base_ttno_network_value_of_tree I dimOf t tm rest hids
+  exact ⟨d, T, hd, hT, fun σ => hval (ttnoDim T) σ (ttnoDim_bonds T (hid ▸ hids))⟩
+
+/-- The same discharge for every diagram on which the filling succeeds (`ttno_network_value` with `ttnoDim`):
+    only the identifiers of the filled TTNO have to be pairwise different. -/
+theorem ttno_network_value_closed {R : Type} [CommSemiring R] (I : Interp R) (dimOf : String → Nat)
+    (d : SD) (T : TTNO) (h : fillTTNO dimOf d = some T) (hnd : (treeIds T).Nodup) (σ : Ptn.Ein.Asg Leg) :
+    Ptn.Ein.netValue (ttnoDim T) (treeBinds T) (treeLeaves I T) σ =
+      fsumVal I (fun j => σ (.out j)) (fun j => σ (.inn j)) (sdDenote d) :=
+  ttno_network_value I dimOf d T h hnd (ttnoDim T) (ttnoDim_bonds T hnd) σ
+
 /-! ### Non-vacuity: concrete instances -/
 
 -- `exTree`, `exT1`, `exT2` (a branched tree with a dimension-1 node and two terms) are defined in `Lemmas.lean`.
@@ -472,5 +514,14 @@ example : ((baseDiagram exTree [exT1, exT2]).bind (fillTTNO fun _ => 2)).map
     (fun T => (decide (treeIds T).Nodup, T.bondsBelow,
       Ptn.Ein.netValue (legDim (fun _ => 2) (fun _ => 2)) (treeBinds T) (treeLeaves exInterp T) exSigma)) =
     some (true, [(2, 2), (1, 2), (3, 2)], -32490) := by decide +kernel
+
+-- `base_ttno_network_value_closed` instance: the reference tree's identifiers are pairwise different, the filled
+-- TTNO has exactly these identifiers, `ttnoDim` gives the three bonds dimension 2 and the flat network with these
+-- dimensions evaluates to the value of the Hamiltonian
+example : exTree.ids.Nodup := by decide
+example : ((baseDiagram exTree [exT1, exT2]).bind (fillTTNO fun _ => 2)).map
+    (fun T => (decide (treeIds T = exTree.ids), [ttnoDim T (.dn 1), ttnoDim T (.dn 2), ttnoDim T (.up 3)],
+      Ptn.Ein.netValue (ttnoDim T) (treeBinds T) (treeLeaves exInterp T) exSigma)) =
+    some (true, [2, 2, 2], -32490) := by decide +kernel
 
 end Ptn.C01
